@@ -79,7 +79,11 @@ pub use bucket::NodeStatus;
 pub use entry::*;
 use rand::RngExt;
 use smallvec::SmallVec;
+#[cfg(not(libp2p_verif))]
 use web_time::Instant;
+
+#[cfg(libp2p_verif)]
+use crate::verif::clock::Instant;
 
 /// Maximum number of k-buckets.
 const NUM_BUCKETS: usize = 256;
@@ -841,5 +845,28 @@ mod tests {
         QuickCheck::new()
             .tests(10)
             .quickcheck(prop as fn(_, _) -> _)
+    }
+}
+
+/// Verification hooks (only with `--cfg libp2p_verif`): side-effect free view of one bucket.
+#[cfg(libp2p_verif)]
+impl<TKey, TVal> KBucketsTable<TKey, TVal>
+where
+    TKey: Clone + AsRef<KeyBytes>,
+    TVal: Clone,
+{
+    /// The nodes of bucket `i` in bucket order with their status, and the pending node (key,
+    /// status, ready) if any. Does not apply pending entries.
+    #[allow(clippy::type_complexity)]
+    pub(crate) fn verif_bucket(
+        &self,
+        i: usize,
+    ) -> (Vec<(TKey, NodeStatus)>, Option<(TKey, NodeStatus, bool)>) {
+        let b = &self.buckets[i];
+        let nodes = b.iter().map(|(n, s)| (n.key.clone(), s)).collect();
+        let pending = b
+            .pending()
+            .map(|p| (p.clone().into_node().key, p.status(), p.is_ready()));
+        (nodes, pending)
     }
 }
